@@ -102,7 +102,7 @@ void one_message(Tape &t, Ctx &c, const Api &a, RawCtx &ctx, bool reused, std::s
 
     size_t nz = 0; for (size_t x : parts) if (x) nz++;
     bool nb = near_boundary(L.n, a.block);
-    c.count(L.cls == 0 ? "len:0..4B+1" : L.cls == 1 ? "len:boundary" : "len:large");
+    c.count(L.cls == 0 ? "len:0..4B+1" : L.cls == 1 ? "len:boundary" : L.cls == 3 ? "len:beyond-2^16" : "len:large");
     if (nb) c.count("len:near-boundary");
     c.count(fmt("calls:%s", nz <= 1 ? "1" : nz == 2 ? "2" : nz <= 8 ? "3-8" : ">8"));
     if (shape & 4) c.count("zero-length-update");
